@@ -179,6 +179,11 @@ def collect(vh: Vh) -> Dict[str, Any]:
                 group(f"IMEM offset {m.group(1)} ({f})", rs_source=v, py_imem_registers=int(O.IMEMRegisters[m.group(1)]))
             if k == "ISR_OFFSET":
                 group(f"IMEM offset ISR ({f})", rs_source=v, py_imem_registers=int(O.IMEMRegisters.ISR))
+    # --- the keyboard register block: the three named offsets and every predicate that enumerates "the keyboard registers"
+    kb_py = sorted(int(O.IMEMRegisters[n]) for n in ("KOL", "KOH", "KIL"))
+    group("keyboard register block", py_imem_registers=kb_py, rs_named_offsets=sorted(int(dump["imem"][n]) for n in ("KOL", "KOH", "KIL")),
+          rs_is_keyboard_offset=dump["kbd_is_keyboard_offset"], rs_requires_host_without_bridge=dump["kbd_requires_host"],
+          rs_keyboard_bridge_switches=dump["kbd_bridge_switches"])
     # --- interrupt mask / status bits
     for k, pyv in [("IMR_MASTER", K.IMRFlag.IRM), ("IMR_MTI", K.IMRFlag.MTM), ("IMR_STI", K.IMRFlag.STM), ("IMR_KEY", K.IMRFlag.KEYM), ("IMR_ONK", K.IMRFlag.ONKM),
                    ("ISR_MTI", K.ISRFlag.MTI), ("ISR_STI", K.ISRFlag.STI), ("ISR_KEYI", K.ISRFlag.KEYI), ("ISR_ONKI", K.ISRFlag.ONKI)]:
